@@ -348,6 +348,7 @@ class VCFLACDict(VCommentDict):
 
     code = 4
     _distrust_size = True
+    _invalid_overflow_size = -1
 
     def load(self, data, errors='replace', framing=False):
         super(VCFLACDict, self).load(data, errors=errors, framing=framing)
